@@ -249,7 +249,7 @@ class Check:
         return ""
 
     # ---------------------------------------------------------------- extract
-    def extract(self, name, extract_v, driver_ml, timeout=300):
+    def extract(self, name, extract_v, driver_ml, timeout=300, explorer=False):
         """coq/Extract/<extract_v> writes <name>_model.ml(i) into build/ocaml/<name>; links with driver."""
         d = os.path.join(BUILD, "ocaml", name)
         os.makedirs(d, exist_ok=True)
@@ -279,6 +279,7 @@ class Check:
         mods = "".join("open %s\n" % os.path.basename(m)[:-3].capitalize() for m in mls)
         open(os.path.join(d, driver_ml), "w").write(
             mods + open(os.path.join(VERIF, "ocaml", "zutil.ml")).read() + "\n" +
+            (open(os.path.join(VERIF, "ocaml", "explore.ml")).read() + "\n" if explorer else "") +
             open(os.path.join(VERIF, "ocaml", driver_ml)).read())
         exe = os.path.join(d, name + "_driver")
         srcs = []
@@ -378,6 +379,49 @@ class Check:
             self.broke("harness", "compile " + name, err[-3000:])
             return None
         return exe
+
+    # ------------------------------------------------------------- case runner
+    def run_cases(self, exe, lines, timeout=600, jobs=None, env=None):
+        """feeds one case per line to `exe` (which prints exactly one line per case, starting with the
+        case id = first word of the input line).  A driver that dies or gets stuck mid-way (DSCHED-STUCK,
+        crash) is restarted on the remaining cases.  Returns {case_id: output line}; stuck/crash lines are
+        returned under the id of the case that was running."""
+        jobs = jobs or NPROC
+        chunks = [lines[i::jobs] for i in range(jobs)]
+        chunks = [c for c in chunks if c]
+        results = {}
+
+        def work(chunk):
+            out_map = {}
+            pending = list(chunk)
+            guard = 0
+            while pending and guard < 10000:
+                guard += 1
+                rc, out, err = sh([exe], input="".join(l + "\n" for l in pending), timeout=timeout, env=env)
+                ids = [l.split()[0] for l in pending]
+                outs = [l for l in out.splitlines() if l.strip()]
+                done = 0
+                for l in outs:
+                    w = l.split()[0]
+                    if done < len(ids) and w == ids[done]:
+                        out_map[ids[done]] = l
+                        done += 1
+                    elif l.startswith("DSCHED-STUCK") and done < len(ids):
+                        out_map[ids[done]] = l
+                        done += 1
+                if rc == 0 and done >= len(ids):
+                    break
+                if done < len(ids) and ids[done] not in out_map:
+                    out_map[ids[done]] = "CRASH rc=%d %s" % (rc, (err or "").strip().replace("\n", " ")[-300:])
+                    done += 1
+                pending = pending[done:]
+            return out_map
+
+        import concurrent.futures
+        with concurrent.futures.ThreadPoolExecutor(max_workers=len(chunks) or 1) as ex:
+            for m in ex.map(work, chunks):
+                results.update(m)
+        return results
 
     # ----------------------------------------------------------------- finish
     def sample(self, obj, limit=6):
